@@ -230,22 +230,23 @@ Proof.
 Qed.
 
 Lemma adv_callhdr_expr c s t :
-  inv s -> mode s = MExpr \/ (exists d, mode s = MErrCall d) \/ mode s = MCallName ->
+  inv s -> mode s = MExpr \/ (exists d, mode s = MErrCall d) \/ mode s = MCallName \/ mode s = MCase ->
   terminator (tk t) = false -> callhdr (adv c s t) = false.
 Proof.
   intros (_ & I2 & _) Hm Ht.
   assert (Hh : hdr s = None).
   { destruct (hdr s) eqn:E; auto. destruct (I2 ltac:(discriminate)) as [Hm2 _].
-    destruct Hm as [Hm|[[d Hm]|Hm]]; congruence. }
+    destruct Hm as [Hm|[[d Hm]|[Hm|Hm]]]; congruence. }
   unfold callhdr, adv. destruct (next_mode (mode s) (pe s) t) as [m' p'] eqn:En.
   destruct (kis (tk t) KRBrace && (depth s <=? 1) || kis (tk t) KSemi && (depth s =? 0)); simpl; auto.
   rewrite Hh.
   assert (Hm' : match m' with MCallName => false | _ => true end = true).
   { unfold next_mode in En. rewrite Ht in En.
-    destruct Hm as [Hm|[[d Hm]|Hm]]; rewrite Hm in En.
+    destruct Hm as [Hm|[[d Hm]|[Hm|Hm]]]; rewrite Hm in En.
     - inversion En; reflexivity.
     - destruct (tk t); inversion En; try reflexivity. destruct d as [|[|d']]; inversion H0; reflexivity.
-    - inversion En; reflexivity. }
+    - inversion En; reflexivity.
+    - destruct (tk t); inversion En; reflexivity. }
   destruct m'; try discriminate; simpl; destruct (tk t); simpl; try reflexivity;
     destruct ((depth s =? 0) && at_start (mode s)); reflexivity.
 Qed.
@@ -278,7 +279,7 @@ Proof.
   unfold calm. split; [apply adv_dp|]. split; [now apply adv_pe_false|]. split; [|now apply adv_not_rwant].
   pose proof Hinv as (I1 & I2 & _).
   unfold callhdr in Hch. apply orb_true_iff in Hch as [Hm|Hh].
-  - apply adv_callhdr_expr; auto. right. right. destruct (mode si); try discriminate; reflexivity.
+  - apply adv_callhdr_expr; auto. right. right. left. destruct (mode si); try discriminate; reflexivity.
   - destruct (hdr si) as [[[|[|n]] b]|] eqn:Eh; try discriminate.
     destruct (I2 ltac:(discriminate)) as [Hm _].
     unfold callhdr, adv. rewrite Hm, Eh. unfold next_mode. rewrite K11.
